@@ -226,10 +226,11 @@ static std::string gOther(const std::string& what, const std::vector<long long>&
 		cell[1] = size_t(a[2]); cell[2] = size_t(a[3]);
 		return outcome(none, [&] { k.Check(&cell[a[4]], a[5] != 0); });
 	}
-	if (what == "mmrm")
+	if (what == "mmrm" || what == "mmmk")
 	{
 		MM m; m.Add(1, 10); if (a[0] == 0) m.InsertKey(5); for (long long j = 0; j < a[0]; ++j) m.Add(5, int(50 + j));
 		auto snap = [&] { return mmContents(m); };
+		if (what == "mmmk") return outcome(snap, [&] { (void)m.MakeIterator(m.Find(5), size_t(a[1])); });
 		return outcome(snap, [&] { m.Remove(m.Find(5), size_t(a[1])); });
 	}
 	if (what == "selrm" || what == "selidx" || what == "row" || what == "tins" || what == "tupd")
